@@ -62,14 +62,55 @@ import GqlProofs.Validate.OverlapWitness
   and finds the input fields of an input object used as a parent, which the rule-by-rule comparison
   of the check masks for the same reason.
 
+  Second group (helper files `GqlProofs/ValSpec/{ReachClosure,ScopeSound,ScopeComplete,ScopeLinks,ValBlocks,…}.lean`:
+  `Spec.reachFrom` is the reflexive-transitive closure of "spreads through defined fragments";
+  per-operation scope of the walk — an event fired while `CurrentOperation = op` is about a node /
+  directive list written in `op` or in a fragment definition reachable from it, and every such node
+  has its event and is marked as linked at the `operation` event; the value events of a run are the
+  typed sites of the argument lists of its `field` / `directive` events and of the variable defaults):
+    C08_UniqueInputFieldNames    §5.6.3 (values shaped as the parser builds them: only list and object
+                                 literals have children — the specification predicate also looks below
+                                 other kinds, the walker like Go does not)
+    C08_KnownTypeNames           §5.5.1.2 ∧ existence of variable types (no hypothesis); `…WithoutSuggestions`
+    C08_VariablesAreInputTypes   §5.8.2 (masked by the existence of the variable types; `_iff`: what the
+                                 rule really tests; joint form with KnownTypeNames without hypothesis)
+    C08_KnownRootType            library rule (no hypothesis: an unparseable operation kind makes the rule
+                                 panic and the specification predicate false); `_panic_iff`
+    C08_NoFragmentCycles         §5.5.2.2 (masked by fragment name uniqueness; unconditionally the rule
+                                 decides `Acyclic`; the direction specification ⇒ silent needs nothing)
+    C08_NoUnusedFragments        §5.5.1.4 (masked by NoFragmentCycles and fragment name uniqueness: the rule
+                                 asks for reachability from an operation — plus the "first fragment quirk" —,
+                                 the specification text for a spread anywhere; `_complete`, `_reach`)
+    C08_NoUndefinedVariables     §5.8.3, C08_NoUnusedVariables §5.8.4 (fragment name uniqueness, constant
+                                 default values; variable name uniqueness for the second)
+    C08_PossibleFragmentSpreads  §5.5.2.3 (well-parented document, no type named "", `possibleOK s`:
+                                 `GetPossibleTypes` is what the definitions imply — loaded schemas: `_loaded`)
+    C08_SingleFieldSubscriptions §5.2.3.1 (`subscriptionRootExact s`; spreads defined, fragment definitions
+                                 have a type condition, at least one root field is collected, equal response
+                                 keys mean equal field names; `_exact`: the rule in its own terms; `_loaded`)
+    C08_MaxIntrospectionDepth    library rule (masked by NoFragmentCycles; `_sound` without hypothesis)
+    C08_VariablesInAllowedPosition §5.8.5 MODULO the recorded finding (the rule ignores the default value of
+                                 the LOCATION): `_iff` is the rule-exact characterisation (location default
+                                 ignored), `C08_VariablesInAllowedPosition` / `_harmless` the equivalence
+                                 where no usage depends on a location default, `_complete` the direction
+                                 that always holds, `_counterexample_location_default` the witness.
+  Every hypothesis has a satisfiability example and (where one exists) a kernel-checked
+  counterexample next to the theorem.
+
+  Capstone: C08_default_rules_iff_spec_partial — the 25 default rules above run TOGETHER report
+  nothing iff the 26 predicates of `Spec.specVerdicts` they stand for hold (all but field merging
+  §5.3.2 and values of correct type §5.6.1), under `C08Hyps` (parser shape of the document, loader
+  invariants of the schema, and the side conditions named above that are not specification
+  predicates themselves); the masked forms need no hypothesis there.
+
   NOT finished (the full statement, kept as the goal):
     C08_verdict : Closed s → (validate defaultRules s d = .ok [] ↔ Spec.specValid s d = true)
-  It is FALSE for the current tree: the check `vcheck -prop C08` finds the deviations R8b–R8e, N1,
-  N2 (DESIGN §7) and two more on the real validator, and the rule models reproduce them.  Rules
-  without a theorem yet: KnownRootType, KnownTypeNames, MaxIntrospectionDepth, NoFragmentCycles,
-  NoUndefinedVariables, NoUnusedFragments, NoUnusedVariables, PossibleFragmentSpreads,
-  SingleFieldSubscriptions, UniqueInputFieldNames, ValuesOfCorrectType, VariablesAreInputTypes,
-  VariablesInAllowedPosition (and OverlappingFieldsCanBeMerged, which has no model in this tree).
+  It is FALSE for the current tree as stated: the recorded finding about VariablesInAllowedPosition
+  (DESIGN §7 R8e, KNOWN_FINDINGS) is a counterexample; and the hypotheses of `C08Hyps` that are not
+  consequences of `Closed s` + "parsed document" mark inputs on which single rules and their
+  predicates differ while both sides reject (the check compares those under masks).  Rules without
+  an equivalence theorem: ValuesOfCorrectType and OverlappingFieldsCanBeMerged (soundness of every
+  reported conflict is proved below).
 -/
 open Gql Gql.Validate Gql.Validate.Rules
 
@@ -466,7 +507,7 @@ example : validate [overlappingFieldsCanBeMerged] OverlapWitness.schema OverlapW
 #print axioms C08_overlap_sameArguments_spec
 #print axioms C08_overlap_sameValue_spec
 
-/- SingleFieldSubscriptions (§5.2.3.1, no equivalence theorem yet): a fragment contributes root fields
+/- SingleFieldSubscriptions (§5.2.3.1; the equivalence is `C08_SingleFieldSubscriptions` below): a fragment contributes root fields
    only if its type condition can apply to the subscription root type (`topApplies`).  Witnesses on
    a schema whose subscription root is `S` (`T` is not a type that can be `S`): -/
 namespace SingleRootWitness
@@ -1355,6 +1396,62 @@ theorem C08_default_rules_iff_spec_partial (s : Schema) (d : QueryDoc) (h : C08H
       types.2,
       (C08_VariablesInAllowedPosition_harmless s d h.wellParented fragUniq h.constDefaults h.inputPositions
         (variableTypesNamed_of_exist s d h.noEmptyTypeName (variablesAreInputTypes_exist s d varTypes)) h.defaultedLocations).2 varsAllowed⟩
+
+namespace CapstoneWitness
+def at' (n : Nat) : Pos := { start := n, stop := n + 1, line := 1, col := n + 1 }
+def tInt : GType := .named (str "Int") false Pos.zero
+def intDef : Definition :=
+  { kind := .scalar, desc := [], name := str "Int", dirs := [], interfaces := [], fields := [], types := [],
+    enumValues := [], pos := Pos.zero, builtIn := true }
+/-- `type Q { a: Int  f(x: Int): Int }` -/
+def qDef : Definition :=
+  { kind := .object, desc := [], name := str "Q", dirs := [], interfaces := [],
+    fields := [{ desc := [], name := str "a", args := [], default := none, type := tInt, dirs := [], pos := Pos.zero },
+               { desc := [], name := str "f",
+                 args := [{ desc := [], name := str "x", default := none, type := tInt, dirs := [], pos := Pos.zero }],
+                 default := none, type := tInt, dirs := [], pos := Pos.zero }],
+    types := [], enumValues := [], pos := Pos.zero, builtIn := false }
+def schema : Schema :=
+  { Schema.empty with query := some (str "Q"), types := [(str "Int", intDef), (str "Q", qDef)],
+                      possibleTypes := [(str "Q", [str "Q"])] }
+/-- `query($v: Int) { f(x: $<use>) ...F }  fragment F on Q { a }` -/
+def doc (use : String) : QueryDoc :=
+  { ops := [{ op := str "query", name := [],
+              vars := [{ var := str "v", type := tInt, default := none, dirs := [], pos := at' 6 }], dirs := [],
+              sel := .cons (.field [] (str "f")
+                        [{ name := str "x", value := .mk .variable (str use) .nil (at' 24), pos := at' 21 }] [] .nil (at' 19))
+                      (.cons (.spread (str "F") [] (at' 28)) .nil), pos := at' 0 }],
+    frags := [{ name := str "F", vars := [], typeCond := str "Q", dirs := [],
+                sel := .cons (.field [] (str "a") [] [] .nil (at' 55)) .nil, pos := at' 36 }] }
+
+/-- `query($v: Int) { f(x: $v) ...F }  fragment F on Q { a }` -/
+def docV : QueryDoc := doc "v"
+/-- `query($v: Int) { f(x: $w) ...F }  fragment F on Q { a }` -/
+def docW : QueryDoc := doc "w"
+end CapstoneWitness
+
+/-- the hypotheses of the capstone are satisfiable, with both sides true … -/
+theorem CapstoneWitness.hypsV : C08Hyps CapstoneWitness.schema CapstoneWitness.docV :=
+  { kinds := by decide +kernel, wellParented := by decide +kernel, outputTypes := by decide +kernel,
+    noEmptyTypeName := by decide +kernel, possibleOK := by decide +kernel, subscriptionRoot := by decide +kernel,
+    valuesShaped := by decide +kernel, constDefaults := by decide +kernel, typeConds := by decide +kernel,
+    selectRoot := by decide +kernel, rootKeys := by decide +kernel, inputPositions := by decide +kernel,
+    defaultedLocations := by decide +kernel }
+example : ((Spec.specVerdicts CapstoneWitness.schema CapstoneWitness.docV).filter
+    (fun p => !c08Uncovered.contains p.1)).all (·.2) = true := by decide +kernel
+example : validate c08Rules CapstoneWitness.schema CapstoneWitness.docV = .ok [] :=
+  (C08_default_rules_iff_spec_partial _ _ CapstoneWitness.hypsV).2 (by decide +kernel)
+/-- … and with both sides false (`$w` is not defined, `$v` is not used) -/
+theorem CapstoneWitness.hypsW : C08Hyps CapstoneWitness.schema CapstoneWitness.docW :=
+  { kinds := by decide +kernel, wellParented := by decide +kernel, outputTypes := by decide +kernel,
+    noEmptyTypeName := by decide +kernel, possibleOK := by decide +kernel, subscriptionRoot := by decide +kernel,
+    valuesShaped := by decide +kernel, constDefaults := by decide +kernel, typeConds := by decide +kernel,
+    selectRoot := by decide +kernel, rootKeys := by decide +kernel, inputPositions := by decide +kernel,
+    defaultedLocations := by decide +kernel }
+example : ((Spec.specVerdicts CapstoneWitness.schema CapstoneWitness.docW).filter
+    (fun p => !c08Uncovered.contains p.1)).all (·.2) = false := by decide +kernel
+example : validate c08Rules CapstoneWitness.schema CapstoneWitness.docW ≠ .ok [] := fun h =>
+  absurd ((C08_default_rules_iff_spec_partial _ _ CapstoneWitness.hypsW).1 h) (by decide +kernel)
 
 #print axioms C08_rule_list_silent_iff
 #print axioms C08_rules_are_default_rules
